@@ -219,6 +219,18 @@ static void caseSE3family(Prng& r) {
       acc3("SGal3", XG.x(), XG.y(), XG.z(), XG.translation(), XG.rotation(), iso5(XG.isometry(), XG.transform()), Rw); acc3("Map<const SGal3>", c.x(), c.y(), c.z(), c.translation(), c.rotation(), iso5(c.isometry(), c.transform()), Rw); acc3("Map<SGal3>", m.x(), m.y(), m.z(), m.translation(), m.rotation(), iso5(m.isometry(), m.transform()), Rw);
       vel("SGal3", XG.vx(), XG.vy(), XG.vz(), XG.linearVelocity()); vel("Map<const SGal3>", c.vx(), c.vy(), c.vz(), c.linearVelocity()); vel("Map<SGal3>", m.vx(), m.vy(), m.vz(), m.linearVelocity());
       bool ok = XG.t() == tm && c.t() == tm && m.t() == tm; cell("time-accessor/SGal3", ok ? 0 : 1); if (!ok) viol("accessor-differs/SGal3::t()", 1, j); }
+    // accessor results are values: held by `auto`, they must not change when the element is modified afterwards
+    {
+      auto chk = [&](const char* n, bool ok) { cell(std::string("accessor-results-are-values/") + n, ok ? 0 : 1); if (!ok) viol(std::string("accessor-result-follows-later-modification/") + n, 1, j); };
+      { SE3<S> W = X3; auto a1 = W.translation(); auto a2 = W.rotation(); auto a3 = W.quat(); auto a4 = W.transform(); auto a5 = W.isometry(); auto a6 = W.x();
+        W.setIdentity(); chk("SE3", exactEq(V3(a1), t) && exactEq(Eigen::Matrix<S, 3, 3>(a2), Rw) && exactEq(typename SO3<S>::DataType(a3.coeffs()), SO3<S>(Q).coeffs()) && exactEq(a4, X3.transform()) && exactEq(a5.matrix(), X3.isometry().matrix()) && a6 == t(0)); }
+      { SE_2_3<S> W = X5; auto a1 = W.translation(); auto a2 = W.rotation(); auto a3 = W.quat(); auto a4 = W.transform(); auto a5 = W.linearVelocity(); auto a6 = W.isometry();
+        W.setIdentity(); chk("SE_2_3", exactEq(V3(a1), t) && exactEq(Eigen::Matrix<S, 3, 3>(a2), Rw) && exactEq(typename SO3<S>::DataType(a3.coeffs()), SO3<S>(Q).coeffs()) && exactEq(a4, X5.transform()) && exactEq(V3(a5), v) && exactEq(a6, X5.isometry())); }
+      { SGal3<S> W = XG; auto a1 = W.translation(); auto a2 = W.rotation(); auto a3 = W.quat(); auto a4 = W.transform(); auto a5 = W.linearVelocity(); auto a6 = W.t();
+        W.setIdentity(); chk("SGal3", exactEq(V3(a1), t) && exactEq(Eigen::Matrix<S, 3, 3>(a2), Rw) && exactEq(typename SO3<S>::DataType(a3.coeffs()), SO3<S>(Q).coeffs()) && exactEq(a4, XG.transform()) && exactEq(V3(a5), v) && a6 == tm); }
+      { SO3<S> W(Q); const SO3<S> W0 = W; auto a2 = W.rotation(); auto a3 = W.quat(); auto a4 = W.transform();
+        W.setIdentity(); chk("SO3", exactEq(Eigen::Matrix<S, 3, 3>(a2), Rw) && exactEq(typename SO3<S>::DataType(a3.coeffs()), W0.coeffs()) && exactEq(a4, W0.transform())); }
+    }
     // angle-axis constructors == quaternion constructor of Quaternion(angle-axis)
     { bool ok = exactEq(SE3<S>(t, AA).coeffs(), SE3<S>(t, QA).coeffs()) && exactEq(SE_2_3<S>(t, AA, v).coeffs(), SE_2_3<S>(t, QA, v).coeffs()) && exactEq(SGal3<S>(t, AA, v, tm).coeffs(), SGal3<S>(t, QA, v, tm).coeffs());
       cell("angle-axis-constructors", ok ? 0 : 1); if (!ok) viol("constructor-inconsistent/(t,angle-axis,...)", 1, j);
